@@ -14,7 +14,8 @@ from .simsched import Scheduler, SimQueue, SimEvent, SimLock, SharedFlag, fork_c
 
 class Cfg:
     def __init__(self, n_workers=2, work_cap="default", res_cap=None, factory=False, quota=None, wait_ready=False,
-                 calls=((3, 1, True),), begin_fault=(), item_fault=(), ready_mid=False, none_inputs=False):
+                 calls=((3, 1, True),), begin_fault=(), item_fault=(), ready_mid=False, none_inputs=False,
+                 body_raises=False, impatient=False, input_kind=0):
         """calls: (number of items, chunk_size, ordered)"""
         self.n_workers = n_workers
         self.work_cap = work_cap  # "default" (1.0) | None | int | float
@@ -30,6 +31,17 @@ class Cfg:
         # some input elements are `None` (results too): the emitted chunk order can then not be read off the results, so the
         # final `out:` field is left out of the comparison with the model (every step is still compared)
         self.none_inputs = none_inputs
+        # the with-body raises after its last call: `__exit__` is entered with the exception (same steps in the model)
+        self.body_raises = body_raises
+        # oracle-only runs: a timed operation (stop orders of `__exit__`, any polling the code does) may time out at any
+        # moment, as it does when the other threads and processes are slow; the model has no step for a retry
+        self.impatient = impatient
+        # how the input is handed over, rotating per call: generator (lazily produced), list, tuple, one-shot iterator, range-like
+        self.input_kind = input_kind
+
+    @property
+    def oracle_only(self):
+        return self.impatient
 
     def work_cap_int(self):
         wc = 1.0 if self.work_cap == "default" else self.work_cap
@@ -49,7 +61,8 @@ class Cfg:
     def to_json(self):
         return dict(n_workers=self.n_workers, work_cap=self.work_cap, res_cap=self.res_cap, factory=self.factory,
                     quota=self.quota, wait_ready=self.wait_ready, calls=self.calls, begin_fault=self.begin_fault,
-                    item_fault=self.item_fault, ready_mid=self.ready_mid, none_inputs=self.none_inputs)
+                    item_fault=self.item_fault, ready_mid=self.ready_mid, none_inputs=self.none_inputs,
+                    body_raises=self.body_raises, impatient=self.impatient, input_kind=self.input_kind)
 
 
 class SimEnv:
@@ -60,9 +73,11 @@ class SimEnv:
         self.opp = opp
         self.cfg = cfg
         self.sched = Scheduler()
+        self.sched.impatient = bool(getattr(cfg, "impatient", False))
         self.queues = {}
         self.event_count = 0
         self.logs = {}  # wid -> list of events (harness side, shared with the fork copies)
+        self.killed = []
         self.crashed = {}
         self.results = []  # per call: list of yielded values
         self.ready_violations = []
@@ -229,6 +244,19 @@ class SimEnv:
             def is_alive(self):
                 return self._sim_thread is not None and not self._sim_thread.finished
 
+            def terminate(self):
+                # SIGTERM: the process stops where it stands, nothing of its code runs any more (no `finally`)
+                env.sched.visible(f"terminate W{self.wid}")
+                env.sched.record(f"terminate W{self.wid}")
+                t = self._sim_thread
+                if t is not None and not t.finished:
+                    t.finished = True
+                    t.pending = None
+                    self._sim_exit = -15
+                    env.killed.append(self.wid)
+
+            kill = terminate
+
             @property
             def exitcode(self):
                 if self._sim_thread is not None and self._sim_thread.finished:
@@ -260,14 +288,25 @@ class SimEnv:
     def consumer(self):
         pool = self.pool
         pool.__enter__()
+        exc = (None, None, None)
         try:
             if self.cfg.wait_ready:
                 pool.until_all_ready()
             for n, cs, ordered in self.cfg.calls:
                 base = len(self.results) * 1000
                 data = (core.pool_input(base // 1000, i, self.cfg.none_inputs) for i in range(n))  # a lazily produced input
+                kind = (self.cfg.input_kind + len(self.results)) % 4
+                if kind == 1:
+                    data = list(data)  # a sized input
+                elif kind == 2:
+                    data = tuple(data)
+                elif kind == 3:
+                    data = iter(list(data))
                 res = []
                 self.results.append(res)
+                if self.cfg.input_kind % 3 == 2:
+                    # a call object that is never iterated: a generator that was not started has done nothing
+                    self.ghosts = getattr(self, "ghosts", []) + [pool.imap(iter([7, 8, 9]), 1), pool.imap_unordered([7, 8], 2)]
                 it = pool.imap(data, cs) if ordered else pool.imap_unordered(data, cs)
                 first = True
                 for x in it:
@@ -279,8 +318,12 @@ class SimEnv:
                         late = [p.wid for p in pool.procs if not p.begin_finished.flag]
                         if late:
                             self.ready_violations.append(late)
+            if self.cfg.body_raises:
+                raise BodyRaised("the with-body raises after its last call")
+        except BodyRaised as e:
+            exc = (type(e), e, e.__traceback__)
         finally:
-            pool.__exit__(None, None, None)
+            pool.__exit__(*exc)
 
     def run(self, chooser, on_step=None):
         """returns ('done' | 'deadlock', schedule, log)"""
@@ -331,6 +374,10 @@ class SimEnv:
         for k, (n, cs, ordered) in enumerate(self.cfg.calls):
             exp.append([core.pool_f(core.pool_input(k, i, self.cfg.none_inputs)) for i in range(n)])
         return exp
+
+
+class BodyRaised(Exception):
+    pass
 
 
 class FaultItem:
